@@ -36,6 +36,8 @@ Env0 == <<
     D("Kinds", "named", "Kinds", TRUE, Sl(R("Kind")), FALSE, <<>>, <<>>, <<>>),
     D("Kind", "enum", "Kind", TRUE, B("int"), FALSE, <<"0", "1", "2">>, <<"KA", "KB", "kc">>, <<>>),
     D("Color", "enum", "Color", TRUE, B("string"), FALSE, <<"'red'", "'blue'">>, <<"Red", "Blue">>, <<>>),
+    \* values that need care in an SQL literal: a quote (doubled), a double quote, a backslash (literal in standard SQL strings)
+    D("Sep", "enum", "Sep", TRUE, B("string"), FALSE, <<"'a'", "'it''s'", "'say \"hi\"'", "'C:\\temp'">>, <<"SepA", "SepTick", "SepQuote", "SepBack">>, <<>>),
     D("Tiny", "enum", "Tiny", TRUE, B("uint8"), FALSE, <<"0", "1">>, <<"T0", "T1">>, <<>>),
     D("Rank", "enum", "Rank", TRUE, B("int32"), FALSE, <<"1", "2">>, <<"R1", "R2">>, <<>>),
     D("Prio", "enum", "Prio", TRUE, B("int64"), FALSE, <<"0", "5">>, <<"P0", "P5">>, <<>>),
